@@ -16,9 +16,14 @@ Definition legal (h : list op) : bool := forallb legal_op h.
 (* faults after which the lookup's SELECT raises sqlite3.DatabaseError *)
 Definition breaks (o : op) : bool :=
   match o with
-  | CorruptFile | DeleteFile | CorruptLayout LModelsDropped | CorruptLayout LModelsWrong => true
+  | CorruptFile | DeleteFile | ZeroFile | MakeDir
+  | CorruptLayout LModelsDropped | CorruptLayout LModelsWrong | CorruptLayout LModelsView => true
   | _ => false
   end.
+
+(* faults no re-initialisation can repair (only the decorator's fall-back to an uncached parse copes with them) *)
+Definition persistent (o : op) : bool :=
+  match o with MakeDir | CorruptLayout LModelsView => true | _ => false end.
 
 (* "every database fault that hits an initialised process is followed by a Reload before the next
    (caching) Parse": a three-bit automaton over the op list.  init = this process has checked the
@@ -32,11 +37,13 @@ Fixpoint disciplined (init dirty vclean : bool) (h : list op) : bool :=
                      else disciplined init dirty vclean h'
     | Reload => disciplined false false vclean h'
     | SetVersion v => disciplined init dirty (is_clean v) h'
-    | _ => disciplined init (dirty || (init && breaks o)) vclean h'
+    | _ => negb (persistent o) && disciplined init (dirty || (init && breaks o)) vclean h'
     end
   end.
 
 Definition usable (d : db) : Prop := match d with Db (MOk _ _) _ => True | _ => False end.
+(* repairable by the once-per-process block: not a directory, no view named models *)
+Definition benign (d : db) : Prop := match d with Dir | Db MView _ => False | _ => True end.
 
 Lemma Forall_filter {A} (P : A -> Prop) (f : A -> bool) (l : list A) : Forall P l -> Forall P (filter f l).
 Proof.
@@ -71,11 +78,11 @@ Section Proofs.
   (* every parse of the history returns what an uncached parse returns; nothing is raised *)
   Definition transparent (s : state) (h : list op) : Prop := Forall2 out_ok h (run s h).
 
-  Lemma db_inv_init_db s days : db_inv (s_db s) -> db_inv (init_db s days).
+  Lemma db_inv_init_db s days d : db_inv (s_db s) -> init_db s days = Some d -> db_inv d.
   Proof.
     unfold init_db, connect, integrity, check_structure, prune.
-    destruct (s_db s) as [| |[| |[] rows] mt]; destruct (s_init s); simpl; intros H;
-      auto using Forall_filter, Forall_nil.
+    destruct (s_db s) as [| | |[| | |[] rows] mt]; destruct (s_init s); simpl; intros H E;
+      inversion E; subst; simpl; auto using Forall_filter, Forall_nil.
   Qed.
 
   Lemma touch_ok k v now rows : Forall row_ok rows -> Forall row_ok (touch k v now rows).
@@ -107,27 +114,35 @@ Section Proofs.
     intros H. unfold miss. simpl. destruct (syntax_ok t) eqn:E; auto using insert_ok.
   Qed.
 
+  Lemma db_fail_inv d e s t i n : db_inv d -> db_inv (s_db (fst (fst (db_fail syntax_ok flag d e s t i n)))).
+  Proof. unfold db_fail. destruct flag; simpl; auto. Qed.
+
+  Lemma connect_inv d : db_inv d -> db_inv (connect d).
+  Proof. destruct d; simpl; auto. Qed.
+
   Lemma parse_step_inv s t days upd : Inv s -> Inv (fst (fst (parse_step s t days upd))).
   Proof.
     unfold Inv. intros H. unfold parse_step.
     destruct (s_ver s); [|exact H].
-    pose proof (db_inv_init_db s days H) as Hi.
-    destruct (init_db s days) as [| |[| |x rows] mt]; unfold db_fail; try (destruct flag; simpl; exact I).
-    simpl in Hi.
-    destruct (lookup t n rows) as [r|]; [|apply miss_inv, Hi].
-    set (rows1 := if upd || (r_hit r <? s_clock s - DAY)%Z then touch t n (s_clock s) rows else rows).
-    assert (H1 : Forall row_ok rows1) by (unfold rows1; destruct (_ || _); auto using touch_ok).
-    destruct (r_blob r); try (simpl; exact H1); try (apply miss_inv, H1).
-    destruct (caught e); [apply miss_inv, H1 | simpl; exact H1].
+    destruct (init_db s days) as [d|] eqn:Ei; [|apply db_fail_inv, connect_inv, H].
+    pose proof (db_inv_init_db s days d H Ei) as Hi.
+    destruct d as [| | |[| | |x rows] mt]; try (apply db_fail_inv; exact I).
+    - destruct (syntax_ok t); [apply db_fail_inv; exact I | exact I].
+    - simpl in Hi.
+      destruct (lookup t n rows) as [r|]; [|apply miss_inv, Hi].
+      set (rows1 := if upd || (r_hit r <? s_clock s - DAY)%Z then touch t n (s_clock s) rows else rows).
+      assert (H1 : Forall row_ok rows1) by (unfold rows1; destruct (_ || _); auto using touch_ok).
+      destruct (r_blob r); try (simpl; exact H1); try (apply miss_inv, H1).
+      destruct (caught e); [apply miss_inv, H1 | simpl; exact H1].
   Qed.
 
   Lemma step_inv s o : legal_op o = true -> Inv s -> Inv (next s o).
   Proof.
     intros Hl H. unfold next. destruct o; simpl; try exact H; try exact I.
     - apply parse_step_inv, H.
-    - unfold Inv in *. simpl. destruct (s_db s) as [| |[| |x rows] mt]; simpl; auto.
+    - unfold Inv in *. simpl. destruct (s_db s) as [| | |[| | |x rows] mt]; simpl; auto.
       apply set_blob_ok; auto.
-    - unfold Inv in *. simpl. destruct (s_db s) as [| |[| |x rows] mt]; destruct k; simpl; auto.
+    - unfold Inv in *. simpl. destruct (s_db s) as [| | |[| | |x rows] mt]; destruct k; simpl; auto.
   Qed.
 
   Lemma exec_inv h s : legal h = true -> Inv s -> Inv (exec s h).
@@ -146,24 +161,34 @@ Section Proofs.
 
   Hypothesis all_caught : forall e, caught e = true.
 
+  (* the lookup of this Parse will find a usable database *)
+  Definition good_for_parse (s : state) (days : Z) : Prop := exists d, init_db s days = Some d /\ usable d.
+
   Lemma parse_out s t days upd :
-    Inv s -> (flag = true \/ usable (init_db s days)) -> outcome s (Parse t days upd) = fresh_out t.
+    Inv s -> (flag = true \/ good_for_parse s days) -> outcome s (Parse t days upd) = fresh_out t.
   Proof.
     unfold Inv, outcome. intros H Hu. simpl. unfold parse_step.
     destruct (s_ver s); [|reflexivity].
-    pose proof (db_inv_init_db s days H) as Hi.
-    destruct (init_db s days) as [| |[| |x rows] mt]; unfold db_fail;
-      try (destruct Hu as [->|[]]; reflexivity).
-    simpl in Hi.
-    destruct (lookup t n rows) as [r|] eqn:El; [|reflexivity].
-    apply find_some in El as [Hin Hk].
-    rewrite Forall_forall in Hi. specialize (Hi r Hin) as [Hs Hb].
-    unfold same_key in Hk. apply andb_true_iff in Hk as [Hk _]. apply Nat.eqb_eq in Hk.
-    destruct (r_blob r); simpl.
-    - subst. unfold C01_cache.fresh_out. rewrite Hs. reflexivity.
-    - rewrite all_caught. reflexivity.
-    - reflexivity.
-    - destruct Hb.
+    assert (F : forall d e i n, flag = true \/ False -> snd (fst (db_fail syntax_ok flag d e s t i n)) = fresh_out t).
+    { intros d e i n0 [->|[]]. reflexivity. }
+    destruct (init_db s days) as [d|] eqn:Ei.
+    2: { apply F. destruct Hu as [Hf|(d & Hd & _)]; [auto|congruence]. }
+    assert (Hu' : flag = true \/ usable d).
+    { destruct Hu as [Hf|(d' & Hd & Hus)]; [auto|]. rewrite Ei in Hd. inversion Hd; subst. auto. }
+    pose proof (db_inv_init_db s days d H Ei) as Hi.
+    destruct d as [| | |[| | |x rows] mt]; try (apply F; destruct Hu' as [Hf|[]]; auto).
+    - destruct (syntax_ok t) eqn:Es; [|unfold C01_cache.fresh_out; rewrite Es; reflexivity].
+      apply F. destruct Hu' as [Hf|[]]; auto.
+    - simpl in Hi.
+      destruct (lookup t n rows) as [r|] eqn:El; [|reflexivity].
+      apply find_some in El as [Hin Hk].
+      rewrite Forall_forall in Hi. specialize (Hi r Hin) as [Hs Hb].
+      unfold same_key in Hk. apply andb_true_iff in Hk as [Hk _]. apply Nat.eqb_eq in Hk.
+      destruct (r_blob r); simpl.
+      + subst. unfold C01_cache.fresh_out. rewrite Hs. reflexivity.
+      + rewrite all_caught. reflexivity.
+      + reflexivity.
+      + destruct Hb.
   Qed.
 
   Lemma other_out s o : (forall t d u, o <> Parse t d u) -> outcome s o = ONone.
@@ -181,34 +206,66 @@ Section Proofs.
 
   (* ---- the reload discipline ---- *)
   Definition link (s : state) (init dirty vclean : bool) : Prop :=
-    s_init s = init /\ is_clean (s_ver s) = vclean /\ (init = true -> dirty = false -> usable (s_db s)).
+    s_init s = init /\ is_clean (s_ver s) = vclean /\ benign (s_db s) /\
+    (init = true -> dirty = false -> usable (s_db s)).
 
-  Lemma usable_init_db s days : (s_init s = true -> usable (s_db s)) -> usable (init_db s days).
+  Lemma usable_benign d : usable d -> benign d.
+  Proof. destruct d as [| | |[| | |x rows] mt]; simpl; auto. Qed.
+
+  Lemma good_init_db s days :
+    benign (s_db s) -> (s_init s = true -> usable (s_db s)) -> good_for_parse s days.
   Proof.
-    unfold init_db. destruct (s_init s).
-    - intros H. specialize (H eq_refl). destruct (s_db s) as [| |[| |x rows] mt]; simpl in *; auto.
-    - intros _. destruct (s_db s) as [| |[| |[] rows] mt]; simpl; auto.
+    unfold good_for_parse, init_db. destruct (s_init s).
+    - intros _ H. specialize (H eq_refl).
+      destruct (s_db s) as [| | |[| | |x rows] mt]; simpl in *; try contradiction.
+      eexists; split; [reflexivity|exact I].
+    - intros Hb _.
+      destruct (s_db s) as [| | |[| | |[] rows] mt]; simpl in *; try contradiction;
+        (eexists; split; [reflexivity|exact I]).
   Qed.
 
   Lemma parse_next_clean s t days upd n :
-    s_ver s = Clean n -> usable (init_db s days) ->
+    s_ver s = Clean n -> good_for_parse s days ->
     let s' := next s (Parse t days upd) in
     s_init s' = true /\ s_ver s' = s_ver s /\ usable (s_db s').
   Proof.
-    intros Hv Hu. unfold next. simpl. unfold parse_step. rewrite Hv.
-    destruct (init_db s days) as [| |[| |x rows] mt]; try destruct Hu.
+    intros Hv (d & Ed & Hu). unfold next. simpl. unfold parse_step. rewrite Hv, Ed.
+    destruct d as [| | |[| | |x rows] mt]; try destruct Hu.
     destruct (lookup t n rows) as [r|]; [|unfold miss; simpl; rewrite Hv; auto].
     destruct (r_blob r); simpl; rewrite ?Hv; auto.
     destruct (caught e); simpl; rewrite ?Hv; auto.
   Qed.
 
+  Definition plain (o : op) : Prop :=
+    match o with Parse _ _ _ | Reload | SetVersion _ => False | _ => True end.
+
   Lemma nonbreaking_usable s o :
-    breaks o = false -> (forall t d u, o <> Parse t d u) -> usable (s_db s) -> usable (s_db (next s o)).
+    breaks o = false -> plain o -> usable (s_db s) -> usable (s_db (next s o)).
   Proof.
-    intros Hb Hp Hu. unfold next. destruct o; simpl in *; auto; try discriminate.
-    - exfalso. eapply Hp. reflexivity.
-    - destruct (s_db s) as [| |[| |x rows] mt]; simpl in *; auto.
-    - destruct (s_db s) as [| |[| |x rows] mt]; destruct k; simpl in *; auto; discriminate.
+    intros Hb Hp Hu. unfold next. destruct o; simpl in *; auto; try discriminate; try contradiction.
+    - destruct (s_db s) as [| | |[| | |x rows] mt]; simpl in *; auto.
+    - destruct (s_db s) as [| | |[| | |x rows] mt]; destruct k; simpl in *; auto; discriminate.
+  Qed.
+
+  Lemma nonpersistent_benign s o :
+    persistent o = false -> plain o -> benign (s_db s) -> benign (s_db (next s o)).
+  Proof.
+    intros Hb Hp Hu. unfold next. destruct o; simpl in *; auto; try discriminate; try contradiction.
+    - destruct (s_db s) as [| | |[| | |x rows] mt]; simpl in *; auto.
+    - destruct (s_db s) as [| | |[| | |x rows] mt]; destruct k; simpl in *; auto; discriminate.
+  Qed.
+
+  Lemma plain_keeps s o : plain o -> s_init (next s o) = s_init s /\ s_ver (next s o) = s_ver s.
+  Proof. intros Hp. unfold next. destruct o; simpl in *; auto; contradiction. Qed.
+
+  Lemma other_link s o i d c :
+    plain o -> persistent o = false -> link s i d c -> link (next s o) i (d || (i && breaks o)) c.
+  Proof.
+    intros Hp Hn (Hi & Hc & Hb & Hu). destruct (plain_keeps s o Hp) as [A B].
+    repeat split; try congruence.
+    - apply nonpersistent_benign; auto.
+    - intros E1 E2. apply orb_false_iff in E2 as [E2 E3]. rewrite E1, andb_true_l in E3.
+      apply nonbreaking_usable; auto.
   Qed.
 
   Lemma transparent_link h : forall s i d c,
@@ -216,19 +273,24 @@ Section Proofs.
   Proof.
     induction h as [|o h IH]; intros s i d c Hl H Hk Hd; [constructor|].
     simpl in Hl. apply andb_true_iff in Hl as [Ho Hh].
-    destruct Hk as (Hi & Hc & Hu).
     unfold transparent. simpl.
     assert (Hinv' : Inv (next s o)) by auto using step_inv.
-    destruct o as [t days upd| |v|dt|key b|k| |].
+    assert (Other : plain o -> negb (persistent o) && disciplined i (d || (i && breaks o)) c h = true ->
+                    Forall2 out_ok (o :: h) (outcome s o :: run (next s o) h)).
+    { intros Hp Hd'. apply andb_true_iff in Hd' as [Hn Hd']. apply negb_true_iff in Hn.
+      constructor; [destruct o; simpl in *; try reflexivity; contradiction|].
+      eapply IH; eauto. apply other_link; auto. }
+    destruct Hk as (Hi & Hc & Hb & Hu).
+    destruct o as [t days upd| |v|dt|key b|k| | | |]; try (apply Other; [exact I|exact Hd]).
     - (* Parse *)
       simpl in Hd. destruct c.
       + apply andb_true_iff in Hd as [Hdirty Hd]. apply negb_true_iff in Hdirty. subst d.
         destruct (s_ver s) as [n|n] eqn:Hv; [|simpl in Hc; discriminate].
-        assert (Hus : usable (init_db s days)).
-        { apply usable_init_db. intros E. apply Hu; congruence. }
+        assert (Hus : good_for_parse s days).
+        { apply good_init_db; auto. intros E. apply Hu; congruence. }
         constructor; [apply parse_out; auto|].
         destruct (parse_next_clean s t days upd n Hv Hus) as (A & B & C).
-        eapply IH; eauto. repeat split; auto. rewrite B, Hv. reflexivity.
+        eapply IH; eauto. repeat split; auto using usable_benign. rewrite B, Hv. reflexivity.
       + destruct (s_ver s) as [n|n] eqn:Hv; [simpl in Hc; discriminate|].
         constructor.
         * unfold outcome. simpl. unfold C01_cache.parse_step. rewrite Hv. reflexivity.
@@ -237,28 +299,16 @@ Section Proofs.
           rewrite E in *. eapply IH; eauto. repeat split; auto. rewrite Hv. reflexivity.
     - constructor; [reflexivity|]. simpl in Hd. eapply IH; eauto. repeat split; auto. discriminate.
     - constructor; [reflexivity|]. simpl in Hd. eapply IH; eauto. repeat split; auto.
-    - constructor; [reflexivity|]. simpl in Hd. eapply IH; eauto. repeat split; auto.
-      simpl. intros E1 E2. apply orb_false_iff in E2 as [E2 _]. auto.
-    - constructor; [reflexivity|]. simpl in Hd. eapply IH; eauto. repeat split; auto.
-      intros E1 E2. apply orb_false_iff in E2 as [E2 E3]. rewrite E1, andb_true_l in E3.
-      apply nonbreaking_usable; [exact E3 | discriminate | auto].
-    - constructor; [reflexivity|]. eapply IH; eauto. repeat split; auto.
-      intros E1 E2. apply orb_false_iff in E2 as [E2 E3]. rewrite E1, andb_true_l in E3.
-      apply nonbreaking_usable; [exact E3 | discriminate | auto].
-    - constructor; [reflexivity|]. simpl in Hd. eapply IH; eauto. repeat split; auto.
-      intros E1 E2. apply orb_false_iff in E2 as [E2 E3]. rewrite E1 in E3. simpl in E3. discriminate.
-    - constructor; [reflexivity|]. simpl in Hd. eapply IH; eauto. repeat split; auto.
-      intros E1 E2. apply orb_false_iff in E2 as [E2 E3]. rewrite E1 in E3. simpl in E3. discriminate.
   Qed.
 
   (* positive theorem for a source that does NOT handle DatabaseError after initialisation (any flag):
      from a freshly started process, transparent provided every breaking fault that hits an
      initialised process is followed by a reload before the next caching parse *)
   Theorem transparent_reload s h :
-    legal h = true -> Inv s -> s_init s = false ->
+    legal h = true -> Inv s -> s_init s = false -> benign (s_db s) ->
     disciplined false false (is_clean (s_ver s)) h = true -> transparent s h.
   Proof.
-    intros Hl H Hi Hd. eapply transparent_link; eauto. repeat split; auto. discriminate.
+    intros Hl H Hi Hb Hd. eapply transparent_link; eauto. repeat split; auto. discriminate.
   Qed.
 End Proofs.
 
